@@ -11,7 +11,7 @@ package main
 //     in the FOREGROUND: an object in an "old" block is refreshed before Get
 //     returns and the caller receives a plain byte-slice buffer. This
 //     configuration therefore never produces a refresh-in-progress buffer (the
-//     check measures this: counter local_get_plain_after_refresh).
+//     check measures this: counter local_get_plain vs local_get_with_task).
 //
 //   - blocksOnDevice: local.NewBlockDeviceBackedBlockAllocator over an
 //     in-memory blockdevice.BlockDevice with blobstore.CASReadBufferFactory,
@@ -84,6 +84,12 @@ func (l *errorLog) Log(err error) {
 	l.mu.Unlock()
 }
 
+func (l *errorLog) count() int {
+	l.mu.Lock()
+	defer l.mu.Unlock()
+	return len(l.msgs)
+}
+
 type blocksKind int
 
 const (
@@ -113,7 +119,7 @@ type localStore struct {
 	lbm  *local.OldCurrentNewLocationBlobMap
 	lock *sync.RWMutex
 	errs *errorLog
-	// content remembers what the harness itself placed (for byte comparison).
+	// fill numbers the filler objects written by park.
 	fill uint64
 }
 
